@@ -76,7 +76,7 @@ func (c APICase) title() string {
 }
 
 func (c APICase) opPath(tpl string) string {
-	return path.Join(orDefault(c.APIBase, "/"), tpl)
+	return path.Join("/", orDefault(c.APIBase, "/"), tpl)
 }
 
 func (c APICase) brief() string {
@@ -239,6 +239,9 @@ func CheckAPI(c APICase) *kit.Violation {
 
 	// 3. operations that are not on an exact document path reach their handler
 	for _, p := range c.Ops {
+		if c.APIBase != "" && !strings.HasPrefix(c.APIBase, "/") {
+			break // where the router puts the operations of a description whose basePath lacks its slash is not this property's matter (r10)
+		}
 		full := c.opPath(p)
 		if full == uiDoc || (absolute && full == specDoc) {
 			continue
